@@ -1164,6 +1164,8 @@ fn main() {
     let mut cases = std::io::BufWriter::new(std::fs::File::create("cases.txt").unwrap());
     let mut imp = std::io::BufWriter::new(std::fs::File::create("impl.txt").unwrap());
     let mut orc = std::io::BufWriter::new(std::fs::File::create("oracle.txt").unwrap());
+    // what a scenario does outside the shared transaction's thread phase (for replays; cases.txt keeps the model's format)
+    let mut hst = std::io::BufWriter::new(std::fs::File::create("history.txt").unwrap());
     let (mut nint, mut nviol, mut steps) = (0usize, 0usize, 0usize);
     let mut distinct = BTreeSet::new();
     let mut kinds: BTreeMap<String, usize> = BTreeMap::new();
@@ -1183,6 +1185,12 @@ fn main() {
         refused += out.results.iter().filter(|r| r.ends_with("=dirty")).count();
         let progs: Vec<String> = sc.progs.iter().map(|p| p.iter().map(Call::text).collect::<Vec<_>>().join(",")).collect();
         writeln!(cases, "{}|{}|{}|{}|{}|{}", sc.id, sc.kind, u8::from(sc.pre_savepoint), sc.end, progs.join(";"), out.log.join(" ")).unwrap();
+        if !sc.prelude.is_empty() || !sc.readers.is_empty() || sc.park.is_some() || sc.commit_gap.is_some() {
+            let pre: Vec<String> = sc.prelude.iter().map(|t| format!("{}:{}", if t.nondurable { "N" } else { "D" },
+                t.ops.iter().map(|(tb, k, v)| match v { Some(v) => format!("{tb}.{k}={v}"), None => format!("{tb}.{k}-") }).collect::<Vec<_>>().join(","))).collect();
+            writeln!(hst, "{}|older_savepoint_before_transaction={} readers_begun_after_transactions={:?} savepoint_dropped_after_commit_grants={:?} parked_thread_grants={:?}|{}",
+                sc.id, if sc.pre_savepoint { sc.pre_at.min(sc.prelude.len()).to_string() } else { "-".into() }, sc.readers, sc.commit_gap, sc.park, pre.join(" ; ")).unwrap();
+        }
         writeln!(imp, "{}|{}|tracking={} dirty={}|{}", sc.id, out.results.join(" "), out.tracking, u8::from(out.dirty), out.digests.join(" ")).unwrap();
         if out.interleaved {
             nint += 1;
@@ -1195,6 +1203,7 @@ fn main() {
         cases.flush().unwrap();
         imp.flush().unwrap();
         orc.flush().unwrap();
+        hst.flush().unwrap();
         if out.violations.iter().any(|(k, _)| k == "c16-hung") {
             break;
         }
